@@ -579,6 +579,28 @@ pub fn arb_stream(set: CharSet, max_len: usize) -> BoxedStrategy<Stream> {
         .boxed()
 }
 
+/// A stream with one huge value (70-300 KiB when printed) among small ones: buffers that are
+/// reused between rows, size-triggered code paths, anything that only happens above 64 KiB.
+pub fn arb_huge_value_stream() -> BoxedStrategy<Stream> {
+    let huge = prop_oneof![
+        (9000usize..30000, 0u8..3).prop_map(|(n, k)| match k {
+            0 => format!("[{}0]", "12345678,".repeat(n)),
+            1 => format!("\"{}\"", "abcdefghij".repeat(n)),
+            _ => format!("{{\"k\":[{}\"end\"]}}", "\"v\\u00e9\",".repeat(n)),
+        }),
+    ];
+    let small = prop::sample::select(vec!["1", "\"a\"", "[1,2]", "{\"a\":null}", "true", "[]", "\"\\u00e9\""]).prop_map(|s| s.to_string());
+    (vec(small.clone(), 0..3), huge, vec(small, 1..4), any::<u64>())
+        .prop_map(|(before, h, after, seed)| {
+            let mut texts = before;
+            texts.push(h);
+            texts.extend(after);
+            let gaps: Vec<(bool, u64)> = (0..=texts.len()).map(|i| (false, seed.wrapping_add(i as u64))).collect();
+            build_stream(&texts, &gaps)
+        })
+        .boxed()
+}
+
 /// Long streams (hundreds to thousands of values, 10-100 KiB): state that accumulates over
 /// a run (counters, buffers refilled at block boundaries, caches) only shows on inputs far
 /// longer than one buffer. The pool is dominated by long digit runs, strings with escapes
